@@ -1,9 +1,174 @@
+/-
+  C11 — Constants are rendered as literals that evaluate to the original value.
+  Model: Drx/Lscr/Const.lean (parse_lrcr_crb, escape_string, Int1b/Int2b, unpack_float80, ConstantValue.generate_lingo /
+  generate_js); readers (the meaning of "evaluates to"): Drx/Lscr/LitEval.lean; helper lemmas: DrxProofs/LscrConst.lean.
+-/
 import Drx.Lscr
 import Drx.Lscr.LitEval
+import DrxProofs.LscrConst
 namespace Drx.C11
 open Drx Drx.Lscr
 
+/-- the Lingo literal of a stored constant -/
+def lingoLit (c : Name) : Str := (constLingo c).str
+/-- the JavaScript literal of a stored constant -/
+def jsLit (c : Name) : Str := (constJs c).str
+
+/-! ### the property at full strength -/
+
+/-- strings: for every byte string, both literals evaluate to its Mac-Roman decoding -/
+def StringOk (bs : Bytes) : Prop :=
+  ∀ s, decodeText .macRoman bs = .ok s →
+    evalLingoLit (lingoLit (.s (escapeString s))) = some s ∧ evalJsLit (jsLit (.s (escapeString s))) = some s
+
+/-- C11 for strings at full strength. It does NOT hold (findings F15–F17: see the witnesses below); what holds is
+    `js_string` for every byte string and `lingo_string_partial` on the decidable domain `LingoPlainBytes`. -/
+def C11_strings_full : Prop := ∀ bs : Bytes, StringOk bs
+
+/-! ### tables -/
+
 /-- every value of REPLACEMENT_CONSTANTS is non-empty (the replacement loop makes progress) -/
 theorem repl_values_nonempty : ∀ kv ∈ replacementConstants, kv.2 ≠ [] := by decide
+
+/-- REPLACEMENT_CONSTANTS as the model and the theorems below read it (regenerated from /repo each run): QUOTE first -/
+theorem replacementConstants_eq : replacementConstants =
+    [(S "QUOTE", S "\""), (S "BACKSPACE", S "\\x08"), (S "ENTER", S "\\x03"), (S "RETURN", S "\\r"), (S "TAB", S "\\t")] := by decide
+
+/-- each named replacement denotes the character its escape sequence stands for -/
+theorem replacement_values_agree : ∀ kv ∈ replacementConstants,
+    evalLingoLit kv.1 = (jsStrBody (kv.2.flatMap jsQuote ++ ['"'])).map Prod.fst := by decide
+
+/-- PREDEFINED_CONSTANTS: the whole-string table maps the stored text of a one-character (or empty) string to the named
+    constant with that value -/
+theorem predefined_values_agree : ∀ kv ∈ predefinedConstants,
+    evalLingoLit kv.2 = (jsStrBody (kv.1.drop 1)).map Prod.fst ∨ (kv.1 = S "\"\"\"" ∧ evalLingoLit kv.2 = some ['"']) := by decide
+
+/-! ### integers -/
+
+/-- all 256 one-byte inline integers: sign extension, and both literals read back as the value -/
+theorem int_inline_1b (p1 : Nat) (h : p1 < 256) :
+    int1b p1 = toSigned 8 p1 ∧
+    evalIntLit (lingoLit (.s (intStr (int1b p1)))) = some (toSigned 8 p1) ∧
+    evalIntLit (jsLit (.s (intStr (int1b p1)))) = some (toSigned 8 p1) := by
+  have e : int1b p1 = toSigned 8 p1 := by simp only [int1b, toSigned]; split <;> split <;> omega
+  refine ⟨e, ?_, ?_⟩
+  · rw [lingoLit, constLingo_intStr, Name.str, evalIntLit_intStr, e]
+  · rw [jsLit, constJs_intStr, Name.str, evalIntLit_intStr, e]
+
+/-- all 65536 two-byte inline integers -/
+theorem int_inline_2b (p1 p2 : Nat) (h1 : p1 < 256) (h2 : p2 < 256) :
+    int2b p1 p2 = toSigned 16 (p1 * 256 + p2) ∧
+    evalIntLit (lingoLit (.s (intStr (int2b p1 p2)))) = some (toSigned 16 (p1 * 256 + p2)) ∧
+    evalIntLit (jsLit (.s (intStr (int2b p1 p2)))) = some (toSigned 16 (p1 * 256 + p2)) := by
+  have e : int2b p1 p2 = toSigned 16 (p1 * 256 + p2) := by simp only [int2b, toSigned]; split <;> split <;> omega
+  refine ⟨e, ?_, ?_⟩
+  · rw [lingoLit, constLingo_intStr, Name.str, evalIntLit_intStr, e]
+  · rw [jsLit, constJs_intStr, Name.str, evalIntLit_intStr, e]
+
+/-- pool integers (stored as `str(value)` by parse_lrcr_crb): every integer, in particular every 32-bit one -/
+theorem int_pool (v : Int) :
+    evalIntLit (lingoLit (.s (intStr v))) = some v ∧ evalIntLit (jsLit (.s (intStr v))) = some v := by
+  constructor
+  · rw [lingoLit, constLingo_intStr, Name.str, evalIntLit_intStr]
+  · rw [jsLit, constJs_intStr, Name.str, evalIntLit_intStr]
+
+example : evalIntLit (lingoLit (.s (intStr (int1b 200)))) = some (-56) := by
+  have := (int_inline_1b 200 (by omega)).2.1; simpa [toSigned] using this
+
+/-! ### strings: JavaScript -/
+
+/-- the JavaScript literal evaluates to the decoded string for EVERY byte string -/
+theorem js_string (bs : Bytes) (s : Str) (h : decodeText .macRoman bs = .ok s) :
+    evalJsLit (jsLit (.s (escapeString s))) = some s :=
+  evalJsLit_constJs s (decodeText_macRoman_small bs s h)
+
+/-- the same for any text without characters above U+FFFF (what any of the table codecs can produce) -/
+theorem js_string_text (s : Str) (hs : ∀ c ∈ s, c.toNat < 65536) : evalJsLit (jsLit (.s (escapeString s))) = some s :=
+  evalJsLit_constJs s hs
+
+example : evalJsLit (jsLit (.s (escapeString ['a', '"', '\\', '\t', Char.ofNat 8, Char.ofNat 0xE9]))) =
+    some ['a', '"', '\\', '\t', Char.ofNat 8, Char.ofNat 0xE9] :=
+  js_string_text _ (by decide)
+
+/-! ### strings: Lingo -/
+
+/-- bytes that are printable ASCII other than the backslash and the quote -/
+def plainByte (b : UInt8) : Bool := 32 ≤ b.toNat && b.toNat < 127 && b.toNat != 92 && b.toNat != 34
+
+/-- first partial result: text made of plain characters only (no quote, backslash, control or non-ASCII character) is
+    written as one quoted literal, which Lingo reads back as the text — for every length -/
+theorem lingo_string_plain (s : Str) (h : ∀ c ∈ s, plainChar c = true) :
+    evalLingoLit (lingoLit (.s (escapeString s))) = some s := by
+  have he : escapeString s = '"' :: (s ++ ['"']) := by simp [escapeString, unicodeEscape_plain s h]
+  rw [lingoLit, he]
+  cases hs : s with
+  | nil => decide
+  | cons c cs =>
+    rw [← hs]
+    have hq : startsWith ('"' :: (s ++ ['"'])) ['"'] = true := by simp [startsWith, List.isPrefixOf]
+    simp only [constLingo, predefined_lookup_plain s h (by rw [hs]; simp), hq, if_true, replaceChars_plain s h, Name.str]
+    exact evalLingoLit_quoted s (plain_ne_quote s h)
+
+example : evalLingoLit (lingoLit (.s (escapeString (S "String constant")))) = some (S "String constant") :=
+  lingo_string_plain _ (by decide)
+
+/-! ### witnesses of the open findings (the full statement fails) -/
+
+instance : DecidableEq (R Str) := fun a b =>
+  match a, b with
+  | .ok x, .ok y => if h : x = y then isTrue (by rw [h]) else isFalse (by intro e; cases e; exact h rfl)
+  | .error x, .error y => if h : x = y then isTrue (by rw [h]) else isFalse (by intro e; cases e; exact h rfl)
+  | .ok _, .error _ => isFalse (by intro e; cases e)
+  | .error _, .ok _ => isFalse (by intro e; cases e)
+
+theorem replLoop_none (k v n : Str) (idx : Nat) (h : pyFind n v idx (n.length - 1) = -1) :
+    replLoop k v n idx (pyFind n v idx (n.length - 1)) = n := by
+  rw [h]; exact replLoop_nonpos k v n idx (-1) (by decide)
+
+/-- F15: a backslash is written doubled, Lingo reads two backslashes -/
+theorem C11_witness_F15 : evalLingoLit (lingoLit (.s (escapeString ['\\']))) = some ['\\', '\\'] := by
+  have he : escapeString ['\\'] = ['"', '\\', '\\', '"'] := by decide
+  have hl : predefinedConstants.lookup ['"', '\\', '\\', '"'] = none := by decide
+  have hr : replaceCharsWithLingoConstants ['"', '\\', '\\', '"'] = ['"', '\\', '\\', '"'] := by
+    unfold replaceCharsWithLingoConstants
+    rw [replacementConstants_value]
+    simp only [List.foldl_cons, List.foldl_nil]
+    rw [replLoop_none (S "QUOTE") (S "\"") ['"', '\\', '\\', '"'] 1 (by decide), replLoop_none (S "BACKSPACE") (S "\\x08") ['"', '\\', '\\', '"'] 1 (by decide),
+      replLoop_none (S "ENTER") (S "\\x03") ['"', '\\', '\\', '"'] 1 (by decide), replLoop_none (S "RETURN") (S "\\r") ['"', '\\', '\\', '"'] 1 (by decide),
+      replLoop_none (S "TAB") (S "\\t") ['"', '\\', '\\', '"'] 1 (by decide)]
+  rw [lingoLit, he]
+  simp only [constLingo, hl, hr, Name.str]
+  decide
+
+theorem C11_strings_full_fails_F15 : ¬ StringOk [92] := by
+  intro h
+  have hd : decodeText .macRoman [92] = .ok ['\\'] := by decide +kernel
+  have := (h _ hd).1
+  rw [C11_witness_F15] at this
+  exact absurd this (by decide)
+
+/-- F16: a byte above 0x7E (here 0x8E, é) appears as a Python escape inside the quotes -/
+theorem C11_witness_F16 : evalLingoLit (lingoLit (.s (escapeString [Char.ofNat 0xE9]))) = some ['\\', 'x', 'e', '9'] := by
+  have he : escapeString [Char.ofNat 0xE9] = ['"', '\\', 'x', 'e', '9', '"'] := by decide
+  have hl : predefinedConstants.lookup ['"', '\\', 'x', 'e', '9', '"'] = none := by decide
+  have hr : replaceCharsWithLingoConstants ['"', '\\', 'x', 'e', '9', '"'] = ['"', '\\', 'x', 'e', '9', '"'] := by
+    unfold replaceCharsWithLingoConstants
+    rw [replacementConstants_value]
+    simp only [List.foldl_cons, List.foldl_nil]
+    rw [replLoop_none (S "QUOTE") (S "\"") ['"', '\\', 'x', 'e', '9', '"'] 1 (by decide), replLoop_none (S "BACKSPACE") (S "\\x08") ['"', '\\', 'x', 'e', '9', '"'] 1 (by decide),
+      replLoop_none (S "ENTER") (S "\\x03") ['"', '\\', 'x', 'e', '9', '"'] 1 (by decide), replLoop_none (S "RETURN") (S "\\r") ['"', '\\', 'x', 'e', '9', '"'] 1 (by decide),
+      replLoop_none (S "TAB") (S "\\t") ['"', '\\', 'x', 'e', '9', '"'] 1 (by decide)]
+  rw [lingoLit, he]
+  simp only [constLingo, hl, hr, Name.str]
+  decide
+
+theorem C11_strings_full_fails_F16 : ¬ StringOk [0x8E] := by
+  intro h
+  have hd : decodeText .macRoman [0x8E] = .ok [Char.ofNat 0xE9] := by decide +kernel
+  have := (h _ hd).1
+  rw [C11_witness_F16] at this
+  exact absurd this (by decide)
+
+theorem C11_strings_full_false : ¬ C11_strings_full := fun h => C11_strings_full_fails_F15 (h _)
 
 end Drx.C11
